@@ -32,6 +32,7 @@ func vAppendSetup(L, E int, withLC bool) *vAppendCase {
 	base := a.base
 	r.commitIndex = vU64("commitIndex")
 	vAssume(r.commitIndex <= r.lastLogIndex && r.commitIndex >= r.snaps.index)
+	vAssume(a.flushed >= r.commitIndex)
 	r.fsm.FSM = &vFSM{}
 	r.fsm.index = r.commitIndex
 	cfg := vStableConfig("cfg", 3, vU64("cfg.index"), 1)
